@@ -207,6 +207,89 @@ struct Found {
 
 static MEM_STOP: AtomicBool = AtomicBool::new(false);
 
+// ---- breadcrumbs: the case each worker is running, written out by a signal handler if the process is killed by the code under test
+const CRUMB_SLOTS: usize = 32;
+const CRUMB_SIZE: usize = 48 * 1024;
+struct Crumbs(std::cell::UnsafeCell<[[u8; CRUMB_SIZE]; CRUMB_SLOTS]>);
+unsafe impl Sync for Crumbs {}
+static CRUMBS: Crumbs = Crumbs(std::cell::UnsafeCell::new([[0; CRUMB_SIZE]; CRUMB_SLOTS]));
+#[allow(clippy::declare_interior_mutable_const)]
+const ZERO_LEN: std::sync::atomic::AtomicUsize = std::sync::atomic::AtomicUsize::new(0);
+static CRUMB_LEN: [std::sync::atomic::AtomicUsize; CRUMB_SLOTS] = [ZERO_LEN; CRUMB_SLOTS];
+static CRUMB_FD: std::sync::atomic::AtomicI32 = std::sync::atomic::AtomicI32::new(-1);
+
+fn crumb_set(worker: usize, case: &Case, buf: &mut Vec<u8>) {
+    if worker >= CRUMB_SLOTS || CRUMB_FD.load(Ordering::Relaxed) < 0 {
+        return;
+    }
+    buf.clear();
+    if serde_json::to_writer(&mut *buf, case).is_err() || buf.len() > CRUMB_SIZE {
+        CRUMB_LEN[worker].store(0, Ordering::SeqCst);
+        return;
+    }
+    CRUMB_LEN[worker].store(0, Ordering::SeqCst);
+    unsafe {
+        let slot = &mut (*CRUMBS.0.get())[worker];
+        slot[..buf.len()].copy_from_slice(buf);
+    }
+    CRUMB_LEN[worker].store(buf.len(), Ordering::SeqCst);
+}
+
+extern "C" fn on_fatal_signal(sig: libc::c_int) {
+    // async-signal-safe: plain writes of pre-serialised buffers to a file that is already open
+    let fd = CRUMB_FD.load(Ordering::SeqCst);
+    if fd >= 0 {
+        for w in 0..CRUMB_SLOTS {
+            let n = CRUMB_LEN[w].load(Ordering::SeqCst);
+            if n > 0 && n <= CRUMB_SIZE {
+                let hdr = (n as u32).to_le_bytes();
+                unsafe {
+                    libc::write(fd, hdr.as_ptr() as *const libc::c_void, 4);
+                    libc::write(fd, (*CRUMBS.0.get())[w].as_ptr() as *const libc::c_void, n);
+                }
+            }
+        }
+        unsafe { libc::fsync(fd) };
+    }
+    unsafe {
+        libc::signal(sig, libc::SIG_DFL);
+        libc::raise(sig);
+    }
+}
+
+fn crumbs_install(dir: &std::path::Path) {
+    let _ = std::fs::create_dir_all(dir);
+    let path = dir.join("crash.bin");
+    if let Ok(c) = std::ffi::CString::new(path.to_string_lossy().as_bytes()) {
+        let fd = unsafe { libc::open(c.as_ptr(), libc::O_CREAT | libc::O_TRUNC | libc::O_WRONLY, 0o644) };
+        if fd >= 0 {
+            CRUMB_FD.store(fd, Ordering::SeqCst);
+            for sig in [libc::SIGSEGV, libc::SIGABRT, libc::SIGBUS, libc::SIGILL] {
+                unsafe { libc::signal(sig, on_fatal_signal as extern "C" fn(libc::c_int) as usize) };
+            }
+        }
+    }
+}
+
+/// The cases a crashed search process was running (one per worker)
+fn crumbs_read(dir: &std::path::Path) -> Vec<Case> {
+    let data = std::fs::read(dir.join("crash.bin")).unwrap_or_default();
+    let mut out = vec![];
+    let mut i = 0;
+    while i + 4 <= data.len() {
+        let n = u32::from_le_bytes([data[i], data[i + 1], data[i + 2], data[i + 3]]) as usize;
+        i += 4;
+        if i + n > data.len() {
+            break;
+        }
+        if let Ok(c) = serde_json::from_slice::<Case>(&data[i..i + n]) {
+            out.push(c);
+        }
+        i += n;
+    }
+    out
+}
+
 /// resident set size of this process in MiB
 fn rss_mib() -> u64 {
     std::fs::read_to_string("/proc/self/statm").ok().and_then(|s| s.split_whitespace().nth(1).and_then(|p| p.parse::<u64>().ok())).map(|pages| pages * 4096 / (1024 * 1024)).unwrap_or(0)
@@ -230,6 +313,7 @@ fn run_worker(id: &str, oracle_id: &str, seed: u64, worker: u64, cases: u32, sto
     let nopts = norm::NormOpts { allow_panic };
     let id_owned = oracle_id.to_string();
     let prof_id = id.to_string();
+    let crumb_buf = std::cell::RefCell::new(Vec::<u8>::with_capacity(4096));
     let result = runner.run(&strat, |raw| {
         if stop.load(Ordering::Relaxed) && counting.get() {
             // another worker has found a violation: wind this one down (a single reject aborts the runner)
@@ -239,6 +323,7 @@ fn run_worker(id: &str, oracle_id: &str, seed: u64, worker: u64, cases: u32, sto
         if case.op_count() == 0 {
             return Ok(());
         }
+        crumb_set(worker as usize, &case, &mut crumb_buf.borrow_mut());
         let out = run_case(&case, &opts);
         let mine = violations_for(&out, &id_owned);
         // known findings are excluded (counted) so that the search continues behind them
@@ -607,6 +692,7 @@ fn cmd_check(id: &str, tier: &str, cases_override: Option<u32>, workers: usize, 
     // 2. generated search
     let pending = home.join("pending").join(rid);
     let _ = std::fs::remove_dir_all(&pending);
+    crumbs_install(&pending);
     let cases = cases_override.unwrap_or(match tier {
         "thorough" => 1_500_000,
         _ => 40_000,
@@ -789,7 +875,7 @@ fn supervise_check(id: &str, args: &[String]) -> i32 {
     let mut files: Vec<_> = std::fs::read_dir(&pending).map(|rd| rd.filter_map(|e| e.ok()).map(|e| e.path()).collect()).unwrap_or_default();
     files.sort();
     for f in files {
-        let reproduced = (0..3).any(|_| std::process::Command::new(&exe).arg("replay").arg(&f).arg("--quiet").stdout(std::process::Stdio::null()).status().map(|s| s.code() == Some(1)).unwrap_or(false));
+        let reproduced = (0..3).any(|_| std::process::Command::new(&exe).arg("replay").arg(&f).arg("--quiet").arg("--in-process").stdout(std::process::Stdio::null()).status().map(|s| s.code() == Some(1)).unwrap_or(false));
         if reproduced {
             let body = std::fs::read_to_string(&f).unwrap_or_default();
             let mut h = std::collections::hash_map::DefaultHasher::new();
@@ -804,8 +890,44 @@ fn supervise_check(id: &str, args: &[String]) -> i32 {
             return 1;
         }
     }
+    // no worker had recorded a violation: look at the cases the workers were running when the process died
+    let cases = crumbs_read(&pending);
+    let rdir = home.join("replays").join(id);
+    let mut crashing: Option<std::path::PathBuf> = None;
+    for (n, case) in cases.iter().enumerate() {
+        let rf = ReplayFile { property: id.to_string(), clause: "search-process-died".to_string(), detail: format!("the search process died ({}) while a worker was running this case", status), signature: String::new(), case: case.clone(), trace: vec![], seed: 0, program: case.pretty() };
+        let tmp = pending.join(format!("crumb-{}.json", n));
+        let _ = std::fs::write(&tmp, serde_json::to_string(&rf).unwrap_or_default());
+        let st = std::process::Command::new(&exe).arg("replay").arg(&tmp).arg("--quiet").arg("--in-process").stdout(std::process::Stdio::null()).stderr(std::process::Stdio::null()).status();
+        let (violates, dies) = match st {
+            Ok(s) => (s.code() == Some(1), s.code().is_none()),
+            Err(_) => (false, false),
+        };
+        // a process that dies inside the library under test is a memory-safety failure in its own right (C14)
+        if violates || (dies && id == "C14") {
+            let _ = std::fs::create_dir_all(&rdir);
+            let body = std::fs::read_to_string(&tmp).unwrap_or_default();
+            let mut h = std::collections::hash_map::DefaultHasher::new();
+            body.hash(&mut h);
+            let keep = rdir.join(format!("{}-unshrunk-{:016x}.json", id, h.finish()));
+            let _ = std::fs::write(&keep, body);
+            let _ = std::fs::remove_dir_all(&pending);
+            println!("note: the search process died ({}); this is one of the cases it was running and it {} on its own (not shrunk)", status, if violates { "violates the property" } else { "kills the process again" });
+            println!("VIOLATION property={} replay={}", id, keep.display());
+            return 1;
+        }
+        if dies && crashing.is_none() {
+            let _ = std::fs::create_dir_all(&rdir);
+            let keep = home.join("pending").join(format!("{}-process-died.json", id));
+            let _ = std::fs::copy(&tmp, &keep);
+            crashing = Some(keep);
+        }
+    }
     let _ = std::fs::remove_dir_all(&pending);
-    println!("INCONCLUSIVE: the search process for {} died ({}) before a violation of {} was recorded", id, status, id);
+    match crashing {
+        Some(p) => println!("INCONCLUSIVE: the search process for {} died ({}) before a violation of {} was recorded; the case in {} kills a process on its own", id, status, id, p.display()),
+        None => println!("INCONCLUSIVE: the search process for {} died ({}) before a violation of {} was recorded", id, status, id),
+    }
     2
 }
 
@@ -841,7 +963,31 @@ fn main() {
                 supervise_check(&id, &args)
             }
         }
-        Some("replay") => cmd_replay(args.get(2).map(|s| s.as_str()).unwrap_or(""), has("--quiet")),
+        Some("replay") => {
+            let path = args.get(2).map(|s| s.as_str()).unwrap_or("");
+            if has("--in-process") {
+                cmd_replay(path, has("--quiet"))
+            } else {
+                // in a child: the stored case may be one that kills the process it runs in
+                let exe = std::env::current_exe().expect("current_exe");
+                match std::process::Command::new(&exe).args(&args[1..]).arg("--in-process").status() {
+                    Ok(st) => match st.code() {
+                        Some(c) => c,
+                        None => {
+                            let prop = std::fs::read_to_string(path).ok().and_then(|b| serde_json::from_str::<ReplayFile>(&b).ok()).map(|rf| rf.property).unwrap_or_default();
+                            if prop == "C14" {
+                                println!("REPRODUCED property=C14 clause=process-died ({}): running this case killed the process ({})", path, st);
+                                1
+                            } else {
+                                println!("UNDECIDED: running this case killed the process ({})", st);
+                                2
+                            }
+                        }
+                    },
+                    Err(_) => 2,
+                }
+            }
+        }
         Some("focus") => {
             // dv focus <replay.json> [--n N]: run the program of a replay file under N pseudo-random schedules and report how often
             // each oracle fires (triage aid, not a check: it uses its own LCG)
